@@ -156,6 +156,7 @@ def run_check(prop, harness_name, tier, seed=0, budget_s=None, mutant=None, jobs
     try:
         with ctx.Pool(nproc, initializer=_worker_init, initargs=(harness_name, scratch, mutant)) as pool:
             pending = []
+            last_progress = time.time()
             queue = [(i, None) for i in order]
             inflight = 0
             results_q = []
@@ -173,6 +174,17 @@ def run_check(prop, harness_name, tier, seed=0, budget_s=None, mutant=None, jobs
                     submit(i, stack)
                 done = [ar for ar in pending if ar.ready()]
                 if not done:
+                    now = time.time()
+                    if now > deadline + 180:
+                        # a worker is stuck far beyond the budget: give up on what is still running (reported, never silent)
+                        harness_error = "budget overrun: %d task(s) still running %ds after the deadline were abandoned" % (len(pending), int(now - deadline))
+                        for i2, _stk in queue:
+                            states[i2].leftover += 1
+                        pool.terminate()
+                        break
+                    if not quiet and now - last_progress > 60:
+                        last_progress = now
+                        print("  .. %s %s: %d paths so far, %d tasks in flight, %d queued, %ds" % (prop, tier, total.get("paths", 0), inflight, len(queue), int(now - t_start)), flush=True)
                     time.sleep(0.01)
                     continue
                 for ar in done:
